@@ -30,9 +30,10 @@ type CCR struct {
 }
 
 type C07Case struct {
-	BigRG bool    `json:"bigRG,omitempty"` // the accounts' rating groups are 2^31-1, 2^31, ... (Unsigned32 on the wire) instead of 1, 2, ...
-	Bal   []int64 `json:"bal"`             // initial balance per account
-	Reqs  []CCR   `json:"reqs"`
+	ZeroRG bool    `json:"zeroRG,omitempty"` // the accounts' rating groups are 0, 1, 2 (and the requests carry a Service-Identifier that is not the rating group)
+	BigRG  bool    `json:"bigRG,omitempty"`  // the accounts' rating groups are 2^31-1, 2^31, ... (Unsigned32 on the wire) instead of 1, 2, ...
+	Bal    []int64 `json:"bal"`              // initial balance per account
+	Reqs   []CCR   `json:"reqs"`
 }
 
 func genC07(t *rapid.T) C07Case {
@@ -42,6 +43,7 @@ func genC07(t *rapid.T) C07Case {
 		c.Bal = append(c.Bal, rapid.SampledFrom([]int64{0, 1, 2, 100, 1 << 31, 1 << 32, 1 << 62, 999}).Draw(t, "bal"))
 	}
 	c.BigRG = rapid.IntRange(0, 3).Draw(t, "bigRG") == 0
+	c.ZeroRG = !c.BigRG && rapid.IntRange(0, 3).Draw(t, "zeroRG") == 0
 	m := rapid.IntRange(1, h.Scale(20, 30)).Draw(t, "nReq")
 	for i := 0; i < m; i++ {
 		r := CCR{Acct: rapid.SampledFrom([]int{0, 0, 0, 1, 1, 2, 3, -1, -2, -4, -5}).Draw(t, "acct")}
@@ -106,6 +108,10 @@ func judgeC07(c C07Case) *h.Verdict {
 			a.rg += 1<<31 - 2 // 2^31-1, 2^31, 2^31+1
 			v.Label("rating-group>=2^31")
 		}
+		if c.ZeroRG {
+			a.rg-- // 0, 1, 2
+			v.Label("rating-group-0")
+		}
 		if i >= 2 {
 			a = acct{accts[i-2].supi, accts[i-2].rg + 1}
 		}
@@ -166,12 +172,20 @@ func judgeC07(c C07Case) *h.Verdict {
 		if idx >= 0 && r.Action == 0 && r.Type == 3 && model[idx] < 0 && amount > uint64(math.MaxInt64+model[idx]) {
 			amount = 1
 		}
+		// the Service-Identifier of the unit is not the rating group (another account's number, when there is one)
+		svcID := uint32(0)
+		if c.ZeroRG || step%3 == 0 {
+			svcID = uint32(accts[len(accts)-1].rg) + 0
+			if svcID == uint32(rg) {
+				svcID = 7
+			}
+		}
 		ccr := &cdt.AccountDebitRequest{
 			SessionId: datatype.UTF8String(r.Sess), OriginHost: "verif-client", OriginRealm: "verif", DestinationRealm: "go-diameter", DestinationHost: "server",
 			UserName: datatype.OctetString("CHF"), RequestedAction: cdt.RequestedAction(r.Action), CcRequestType: cdt.CcRequestType(r.Type),
 			CcRequestNumber: datatype.Unsigned32(r.Num), EventTimestamp: datatype.Time(time.Now()),
 			SubscriptionId: &cdt.SubscriptionId{SubscriptionIdType: cdt.SubscriptionIdType(r.IdType), SubscriptionIdData: datatype.UTF8String(supi[5:])},
-			MultipleServicesCreditControl: &cdt.MultipleServicesCreditControl{RatingGroup: datatype.Unsigned32(rg),
+			MultipleServicesCreditControl: &cdt.MultipleServicesCreditControl{RatingGroup: datatype.Unsigned32(rg), ServiceIdentifier: datatype.Unsigned32(svcID),
 				RequestedServiceUnit: &cdt.RequestedServiceUnit{CCTotalOctets: datatype.Unsigned64(amount)}},
 		}
 		used := amount
